@@ -358,6 +358,17 @@ def generated_picture_doc(rng):
     if rng.random() < 0.3:
         uses.append(None)  # a text frame
     rng.shuffle(uses)
+    if rng.random() < 0.5:
+        # embedded objects: sub-documents with XML parts of their own, listed in the manifest
+        ons = 'xmlns:office="urn:oasis:names:tc:opendocument:xmlns:office:1.0" xmlns:text="urn:oasis:names:tc:opendocument:xmlns:text:1.0"'
+        for k in range(rng.randrange(1, 3)):
+            base = f"Object {k + 1}"
+            doc.container.set_part(f"{base}/content.xml", (f'<?xml version="1.0" encoding="UTF-8"?>\n<office:document-content {ons} office:version="1.2"><office:body>'
+                                                            f'<office:text><text:p>object {k} text</text:p></office:text></office:body></office:document-content>').encode())
+            doc.container.set_part(f"{base}/styles.xml", f'<?xml version="1.0" encoding="UTF-8"?>\n<office:document-styles {ons} office:version="1.2"><office:styles/></office:document-styles>'.encode())
+            doc.manifest.add_full_path(f"{base}/", "application/vnd.oasis.opendocument.text")
+            doc.manifest.add_full_path(f"{base}/content.xml", "text/xml")
+            doc.manifest.add_full_path(f"{base}/styles.xml", "text/xml")
 
     def frame(i, uri, anchor):
         if uri is None:
@@ -433,6 +444,47 @@ def part_bytes(zip_bytes: bytes) -> dict:
     return out
 
 
+def whole_package(kind, art) -> dict:
+    """name -> content of every part of a saved package; XML parts up to layout (white-space-only text nodes dropped, canonical form),
+    the generator string blanked, the manifest as its set of entries"""
+    import zipfile
+    from lxml import etree
+
+    raw = {}
+    if kind == "zip":
+        with zipfile.ZipFile(io.BytesIO(art)) as z:
+            for n in z.namelist():
+                if not n.endswith("/"):
+                    raw[n] = z.read(n)
+    else:
+        for f in sorted(Path(art).rglob("*")):
+            if f.is_file():
+                raw[f.relative_to(art).as_posix()] = f.read_bytes()
+    out = {}
+    for n, data in raw.items():
+        if n.endswith(".xml") or n.endswith(".rdf"):
+            if n == "meta.xml":
+                data = re.sub(rb"<meta:generator>[^<]*</meta:generator>", b"<meta:generator/>", data)
+            try:
+                root = etree.fromstring(data, etree.XMLParser(remove_blank_text=True))
+            except etree.XMLSyntaxError:
+                out[n] = data
+                continue
+            if n == "META-INF/manifest.xml":
+                mns = "{urn:oasis:names:tc:opendocument:xmlns:manifest:1.0}"
+                out[n] = sorted((e.get(mns + "full-path"), e.get(mns + "media-type")) for e in root.iter(mns + "file-entry"))
+                continue
+            for e in root.iter():
+                if e.text is not None and not e.text.strip():
+                    e.text = None
+                if e.tail is not None and not e.tail.strip():
+                    e.tail = None
+            out[n] = etree.tostring(root, method="c14n")
+        else:
+            out[n] = data
+    return out
+
+
 def load_view(kind, art):
     from odfdo import Document
 
@@ -452,15 +504,25 @@ def run(chk: core.Check) -> None:
         "line-break, bookmarks, notes, frames in every adjacency, a fifth with raw white-space runs) + generated text documents and presentations with 1..3 "
         "pictures, each added once to the package (Document.add_file from a file object or a path) and shown by 1..3 image frames in interleaved order "
         "(a logo on several pages / in several paragraphs), now and then an http picture and a text frame x pretty in {False, True} x packaging in "
-        "{zip, folder, xml} x save sequences (twice; pretty then plain; save / edit through a reference taken before the save / save again). flat XML: besides the paragraph texts, every element at its depth with its "
+        "{zip, folder, xml}; the same documents edited in memory in every kind of part (body, XML parts of embedded objects through get_part, meta, manifest through add_file / del_part) and saved for the first time as pretty zip / folder / pretty folder, the package compared part for part with the plain zip save; save sequences (twice; pretty then plain; save / edit through a reference taken before the save / save again). flat XML: besides the paragraph texts, every element at its depth with its "
         "attribute values in the order of the plain zip save (meta, settings, styles, content), a picture of the package embedded with the bytes of its part "
         "at the draw:image that references it. non-trivial = a document whose paragraphs hold inline elements; distinct by (document, configuration)"
     )
     tmp = Path(tempfile.mkdtemp(prefix="c11-", dir="/var/tmp"))
     try:
         docs = [(p.name, (lambda p=p: Document(p))) for p in sample_paths()]
-        if chk.quick():
-            docs = docs[:: 2] if len(docs) > 24 else docs
+        if chk.quick() and len(docs) > 24:
+            # every second document, and always those that hold embedded objects (sub-documents with XML parts of their own)
+            import zipfile as _zf
+
+            def has_objects(p):
+                try:
+                    return any("/" in n and not n.startswith("META-INF/") and n.endswith("/content.xml") for n in _zf.ZipFile(p).namelist())
+                except Exception:  # noqa: BLE001
+                    return False
+
+            with_objects = {p.name for p in sample_paths() if has_objects(p)}
+            docs = [d for i, d in enumerate(docs) if i % 2 == 0 or d[0] in with_objects]
         gens = []
         for i in range(chk.n(40, 400)):
             seed = rng.randrange(10**9)
@@ -574,6 +636,54 @@ def one_document(chk, rng, name, mk, tmp):
         if last != direct:
             chk.fail({**case, "clause": "save-sequence"}, "the last save of a sequence does not write what a single save writes")
 
+
+    # ---- the document EDITED in memory in every kind of part (body, the XML parts of embedded objects reached through get_part,
+    #      meta, the manifest through add_file / del_part), then saved for the first time: every packaging and layout writes the
+    #      same package as the plain zip save, part for part (XML parts up to layout)
+    def edit_everything(d):
+        from odfdo import Paragraph as _Pg
+
+        touched = []
+        if d.body is not None:
+            d.body.append(_Pg("edited in memory"))
+            touched.append("content.xml")
+        for n in sorted(d.parts):
+            if "/" in n and not n.startswith("META-INF/") and n.rsplit("/", 1)[1] in ("content.xml", "styles.xml"):
+                d.get_part(n).root._Element__element.set("{urn:verif}mark", "edited")
+                touched.append(n)
+        pic = tmp / "verif-added.png"
+        pic.write_bytes(random_png(__import__("random").Random(7)))
+        d.add_file(pic)
+        touched.append("add_file")
+        if "Thumbnails/thumbnail.png" in d.parts:
+            d.del_part("Thumbnails/thumbnail.png")
+            touched.append("del_part")
+        d.meta.title = "edited title"
+        return touched
+
+    try:
+        d0 = mk()
+        touched = edit_everything(d0)
+        want_pkg = whole_package("zip", save_as(d0, "zip", False, tmp))
+    except Exception as e:  # noqa: BLE001
+        chk.fail({**case0, "exception": repr(e), "clause": "edited-plain-save"}, f"editing the document and saving it raised {type(e).__name__}")
+        want_pkg = None
+    if want_pkg is not None:
+        for packaging, pretty in (("zip", True), ("folder", False), ("folder", True)):
+            case = {**case0, "packaging": packaging, "pretty": pretty, "edited": touched}
+            chk.case((name, "edited", packaging, pretty), nontrivial=True)
+            chk.count("edited document", f"{packaging}/{'pretty' if pretty else 'plain'}" + (" with embedded object parts" if any("/" in x for x in touched) else ""))
+            try:
+                d1 = mk()
+                edit_everything(d1)
+                got_pkg = whole_package(packaging, save_as(d1, packaging, pretty, tmp))
+            except Exception as e:  # noqa: BLE001
+                chk.fail({**case, "exception": repr(e), "clause": "edited-save"}, f"saving the edited document raised {type(e).__name__}")
+                continue
+            bad = sorted(n for n in set(want_pkg) | set(got_pkg) if want_pkg.get(n) != got_pkg.get(n))
+            if bad:
+                chk.fail({**case, "clause": "edited-save", "parts": bad[:5], "missing": [n for n in bad if n not in got_pkg][:3], "unexpected": [n for n in bad if n not in want_pkg][:3]},
+                         "the edited document saved with this packaging / layout is not, part for part, what the plain zip save of the same edited document writes")
 
     # ---- a save, an edit through a reference taken BEFORE the save, a save again: the second save writes the edited document
     #      (what a save prepared or cached must not survive an edit made without going through the part again)
